@@ -3,7 +3,6 @@
 package main
 
 import (
-	"bytes"
 	"encoding/binary"
 	"fmt"
 	"math"
@@ -490,6 +489,5 @@ func main() {
 			}
 		}
 		c.Set("valid_ids_mutated", n)
-		_ = bytes.Equal
 	})
 }
